@@ -7,7 +7,7 @@
    literal separator: the parts joined by the separator give the string back, no part contains it, one more part than
    separators, and the row built per part has that part at the split field and the row's own cell everywhere else
    (SplitFacts.v).  capture and regex separators are judged on every run on the implementation's output (not mechanised). *)
-From Verif Require Import PyVal Rows ComparableGen Sort Joins JoinRel Basics Reductions Reshape ReshapeFacts RecastFacts PivotFacts DictsFacts UnpackFacts SplitFacts.
+From Verif Require Import PyVal Rows ComparableGen Sort Joins JoinRel Basics Reductions Reshape ReshapeFacts RecastFacts PivotFacts DictsFacts UnpackFacts SplitFacts MeltFacts.
 From Coq Require Import Sorted.
 
 Theorem C14_transpose_involutive : forall n hdr t, (1 <= n)%nat -> rect n (hdr :: t) ->
@@ -155,6 +155,28 @@ Theorem C14_splitdown_row_count : forall (field : val) (sep : Z) (hdr : row) (ro
                                                       | _ => O end) rows)).
 Proof. exact splitdown_model_row_count. Qed.
 
+(* melt emits exactly one row per (row, variable) cell that exists, in variable order: key cells, variable name, that cell
+   (melt_block is the per-row expansion melt_model runs; has_cell r (vn, i) = the row has a position i) *)
+Theorem C14_melt_one_row_per_cell : forall (k r : row) (pairs : list (val * Z)),
+  flat_map (fun vn_i : val * Z => match py_nth r (snd vn_i) with Some x => [k ++ [fst vn_i; x]] | None => [] end) pairs
+  = map (fun p => k ++ [fst p; match py_nth r (snd p) with Some x => x | None => VNone end])
+        (filter (fun p => match py_nth r (snd p) with Some _ => true | None => false end) pairs).
+Proof. exact melt_block_spec. Qed.
+
+Theorem C14_melt_rectangular_row : forall (k r : row) (pairs : list (val * Z)),
+  (forall p, In p pairs -> has_cell r p = true) ->
+  melt_block k r pairs = map (fun p => k ++ [fst p; cell_or_none r (snd p)]) pairs /\
+  length (melt_block k r pairs) = length pairs.
+Proof. exact melt_block_full. Qed.
+
+(* the whole operator: header = key fields then the two new names; data = one block per source row, in source order *)
+Theorem C14_melt_model_exact : forall (key variables : option val) (vf valf : val) (hdr : row) (rows : list row) (outt : table),
+  melt_model key variables vf valf (hdr :: rows) = (outt, None) ->
+  exists ki pairs khdr blocks,
+    rowgetter ki hdr = Some khdr /\ outt = (khdr ++ [vf; valf]) :: concat blocks /\
+    Forall2 (fun r block => exists k, rowgetter ki r = Some k /\ block = melt_block k r pairs) rows blocks.
+Proof. exact melt_model_exact. Qed.
+
 (* melt emits the same number of rows for every input row when no cell is missing (one per variable) *)
 Theorem C14_rows_times_variables : forall (A B : Type) (f : A -> list B) (l : list A) k,
   (forall x, In x l -> length (f x) = k) -> length (flat_map f l) = (length l * k)%nat.
@@ -225,3 +247,6 @@ Print Assumptions C14_splitdown_row_exists.
 Print Assumptions C14_splitdown_frame.
 Print Assumptions C14_splitdown_exact.
 Print Assumptions C14_splitdown_row_count.
+Print Assumptions C14_melt_one_row_per_cell.
+Print Assumptions C14_melt_rectangular_row.
+Print Assumptions C14_melt_model_exact.
